@@ -12,7 +12,8 @@ Families and documented parametrisation
   expweib(alpha, beta, delta)      F = [1 - exp(-(x/alpha)^beta)]^delta
   gengamma(m, c, lambda_)          F = P(m, (lambda x)^c)
   vonmises(kappa, mu)              f = exp(kappa cos(x-mu)) / (2 pi I0(kappa)) on [mu-pi, mu+pi]
-  gamma(a, loc, scale), rayleigh(loc, scale), gumbel_r(loc, scale)  (ScipyDistribution subclasses)
+  gamma(a, loc, scale), rayleigh(loc, scale), gumbel_r(loc, scale), sc_gengamma(a, c, loc, scale)
+                                   (ScipyDistribution subclasses; sc_gengamma: F = P(a, ((x-loc)/scale)^c), two shapes)
 """
 import math
 
@@ -32,6 +33,7 @@ PARAMS = {
     "gamma": ["a", "loc", "scale"],
     "rayleigh": ["loc", "scale"],
     "gumbel_r": ["loc", "scale"],
+    "sc_gengamma": ["a", "c", "loc", "scale"],
 }
 
 DEFAULTS = {
@@ -45,6 +47,7 @@ DEFAULTS = {
     "gamma": {"a": 1, "loc": 0, "scale": 1},
     "rayleigh": {"loc": 0, "scale": 1},
     "gumbel_r": {"loc": 0, "scale": 1},
+    "sc_gengamma": {"a": 1, "c": 1, "loc": 0, "scale": 1},
 }
 
 # support: ("pos") = (lower, inf) with lower >= 0 ; "real"
@@ -59,6 +62,7 @@ SUPPORT = {
     "gamma": "pos",
     "rayleigh": "pos",
     "gumbel_r": "real",
+    "sc_gengamma": "pos",
 }
 
 
@@ -122,10 +126,17 @@ def _vm_cdf_quad(x, k):
     return v
 
 
+
+
+def _scgg(p):
+    return {"m": p["a"], "c": p["c"], "lambda_": 1.0 / _f(p["scale"])}
+
 # ----------------------------------------------------------------------
 # family functions
 # ----------------------------------------------------------------------
 def cdf(fam, x, **p):
+    if fam == "sc_gengamma":
+        return cdf("gengamma", _f(x) - _f(p["loc"]), **_scgg(p))
     x = _f(x)
     with np.errstate(all="ignore"):
         if fam == "weibull":
@@ -166,6 +177,8 @@ def cdf(fam, x, **p):
 
 
 def sf(fam, x, **p):
+    if fam == "sc_gengamma":
+        return sf("gengamma", _f(x) - _f(p["loc"]), **_scgg(p))
     """Survival function, accurate in the upper tail."""
     x = _f(x)
     with np.errstate(all="ignore"):
@@ -206,6 +219,8 @@ def sf(fam, x, **p):
 
 
 def pdf(fam, x, **p):
+    if fam == "sc_gengamma":
+        return pdf("gengamma", _f(x) - _f(p["loc"]), **_scgg(p))
     x = _f(x)
     with np.errstate(all="ignore"):
         if fam == "weibull":
@@ -265,6 +280,8 @@ def pdf(fam, x, **p):
 
 
 def logpdf(fam, x, **p):
+    if fam == "sc_gengamma":
+        return logpdf("gengamma", _f(x) - _f(p["loc"]), **_scgg(p))
     x = _f(x)
     with np.errstate(all="ignore"):
         if fam == "weibull":
@@ -304,6 +321,8 @@ def logpdf(fam, x, **p):
 
 
 def icdf(fam, q, **p):
+    if fam == "sc_gengamma":
+        return _f(p["loc"]) + icdf("gengamma", q, **_scgg(p))
     q = _f(q)
     with np.errstate(all="ignore"):
         if fam == "weibull":
@@ -349,6 +368,8 @@ def _vm_icdf(q, kappa, mu):
 
 def isf(fam, s, **p):
     """Inverse survival function (upper tail without cancellation)."""
+    if fam == "sc_gengamma":
+        return _f(p["loc"]) + isf("gengamma", s, **_scgg(p))
     s = _f(s)
     with np.errstate(all="ignore"):
         if fam == "weibull":
@@ -411,6 +432,8 @@ def admissible(fam, p):
             return p["a"] > 0 and p["scale"] > 0
         if fam in ("rayleigh", "gumbel_r"):
             return p["scale"] > 0
+        if fam == "sc_gengamma":
+            return p["a"] > 0 and p["c"] > 0 and p["scale"] > 0
     except (KeyError, TypeError):
         return False
     return False
